@@ -8,6 +8,11 @@ for l in open('/verif/properties.jsonl'):
 base = sys.argv[2] if len(sys.argv) > 2 else "/tmp/wt"
 wt = "%s/%s" % (base, pid)
 out = "%s/%s_out" % (base, pid)
+focus = ""
+if len(sys.argv) > 3:
+    m = d['anchors']['mechanism'][int(sys.argv[3])]
+    focus = ("FOCUS: of the mechanisms listed above, make your change in or directly around this one: %s (%s). "
+             "Do not put the change anywhere else.\n\n" % (m['name'], m['where']))
 print(f"""You are testing how robust a project's quality gates are. You work ONLY inside the scratch git worktree {wt} (a checkout of the pynetdicom repository: pure-Python DICOM networking library) and the output directory {out}. Never read or touch /repo, /verif or any other worktree under /tmp/wt.
 
 Python: /venv/bin/python. IMPORTANT: /venv has pynetdicom installed from another location, so to import YOUR copy always run with `cd {wt} && PYTHONPATH={wt} /venv/bin/python ...` and verify once with `PYTHONPATH={wt} /venv/bin/python -c "import pynetdicom; print(pynetdicom.__file__)"` (must print a path under {wt}). No network is available.
@@ -19,7 +24,7 @@ STATEMENT: {d['statement']}
 QUANTIFIED OVER: {d['quantifier']['text']}
 WHERE IT LIVES: files {d['anchors']['files']}; mechanisms {json.dumps(d['anchors'].get('mechanism'))}
 
-YOUR TASK: write a realistic source change (a plausible bug a developer could introduce: an off-by-one, a dropped guard, a swapped field, a stale flag, a missing lock, a wrong comparison, a mis-ordered pair of statements, ...) to the library code under {wt}/pynetdicom (NOT to tests) that BREAKS this property, while
+{focus}YOUR TASK: write a realistic source change (a plausible bug a developer could introduce: an off-by-one, a dropped guard, a swapped field, a stale flag, a missing lock, a wrong comparison, a mis-ordered pair of statements, ...) to the library code under {wt}/pynetdicom (NOT to tests) that BREAKS this property, while
   (a) the code still imports/compiles, and
   (b) the existing test suite still passes. Run the tests most relevant to the files you touched, e.g. `cd {wt} && PYTHONPATH={wt} /venv/bin/python -m pytest -q -p no:cacheprovider -x -n 4 --timeout=300 pynetdicom/tests/test_<x>.py`, and before finishing run the whole library suite once: `cd {wt} && PYTHONPATH={wt} /venv/bin/python -m pytest -q -p no:cacheprovider -n 6 --timeout=600 pynetdicom/tests 2>&1 | tail -15` (takes several minutes; tests under pynetdicom/apps/tests are known to fail in this offline sandbox irrespective of your change - ignore those; a handful of timing-flaky failures that also fail without your change are acceptable - confirm by re-running the failing test alone with your change reverse-applied (see below, never use `git stash`)).
   (c) The break must NOT be something ordinary use exposes at once. It should need something specific to manifest: a particular interleaving or timing, a fault/crash at a particular point, a multi-step sequence of operations, an unusual-but-legal input or boundary value, or two cooperating sites that each look fine alone. Prefer subtle over blatant. If your first idea makes existing tests fail, pick a different change rather than editing tests.
